@@ -138,6 +138,41 @@ theorem loopE_rel (cond : σ → Bool) (body : σ → Except (ε × σ) σ) (R :
       · rw [h1, h2]; exact ⟨rfl, h3⟩
     · simp only [hc]; exact ⟨rfl, h⟩
 
+theorem loopN_of_not_cond (cond : σ → Bool) (body : σ → σ) (fuel : Nat) (s : σ)
+    (h : cond s = false) : loopN cond body fuel s = s := by
+  cases fuel <;> simp [loopN, h]
+
+theorem loopE_of_not_cond (cond : σ → Bool) (body : σ → Except (ε × σ) σ) (fuel : Nat) (s : σ)
+    (h : cond s = false) : loopE cond body fuel s = (none, s) := by
+  cases fuel <;> simp [loopE, h]
+
+/-- iteration counter of `loopE` on a normal exit: at most `fuel` passes, and fewer only if the guard failed -/
+theorem loopE_exit (cond : σ → Bool) (body : σ → Except (ε × σ) σ) (cnt : σ → Nat)
+    (hcnt : ∀ s s', body s = .ok s' → cnt s' = cnt s + 1) :
+    ∀ fuel s s', loopE cond body fuel s = (none, s') →
+      cnt s' ≤ cnt s + fuel ∧ cnt s ≤ cnt s' ∧ (cnt s' = cnt s + fuel ∨ cond s' = false) := by
+  intro fuel
+  induction fuel with
+  | zero => intro s s' he; simp [loopE] at he; subst he; simp
+  | succ n ih =>
+    intro s s' he
+    unfold loopE at he
+    by_cases hc : cond s = true
+    · simp only [hc, if_true] at he
+      cases hb : body s with
+      | error es => obtain ⟨e, s1⟩ := es; rw [hb] at he; simp at he
+      | ok s1 =>
+        rw [hb] at he
+        obtain ⟨h1, h2, h3⟩ := ih s1 s' he
+        have := hcnt s s1 hb
+        refine ⟨by omega, by omega, ?_⟩
+        rcases h3 with h3 | h3
+        · left; omega
+        · right; exact h3
+    · simp only [hc] at he; simp at he; subst he
+      refine ⟨by omega, Nat.le_refl _, Or.inr ?_⟩
+      simpa using hc
+
 end loops
 
 /-! ### history -/
